@@ -144,7 +144,7 @@ def run(tier, seed, replay=None):
     docs = []
     for i in range(n_docs):
         d = exprdoc.ExprDoc(rng, n_targets=2, max_depth=rng.choice((2, 3)), cascade=True,
-                            types=rng.sample(ge.VALUE_TYPES, 4) if i % 2 else None)
+                            types=rng.sample(ge.VALUE_TYPES, 4) if i % 2 else None, gadget_members=(i % 3 == 2))
         docs.append(d)
     if replay:
         rp = json.load(open(replay))
